@@ -257,6 +257,36 @@ func applyFaults(b []byte, plan []faultOne) []byte {
 				return nil
 			}
 			strike := sb.off + int(binary.BigEndian.Uint32(b[sb.off+8:]))
+			if strike+4+4*6 > len(m) {
+				return nil
+			}
+			// make room: glyphs 1..3 get 10-byte records carved at the start of the data of glyph 1 onwards
+			// (the offsets of the following glyphs are pushed up so that the array stays monotone)
+			{
+				offAt := func(g int) int { return int(binary.BigEndian.Uint32(m[strike+4+4*g:])) }
+				ng := 0
+				for _, e := range dir {
+					if e.tag == "maxp" && e.off+6 <= len(b) {
+						ng = int(binary.BigEndian.Uint16(b[e.off+4:]))
+					}
+				}
+				if ng < 4 || strike+4+4*(ng+1) > len(m) {
+					return nil
+				}
+				x := offAt(1)
+				if offAt(ng)-x < 30 {
+					return nil
+				}
+				for g := 1; g <= ng; g++ {
+					want := offAt(g)
+					if g <= 4 {
+						want = x + 10*(g-1)
+					} else if want < x+30 {
+						want = x + 30
+					}
+					binary.BigEndian.PutUint32(m[strike+4+4*g:], uint32(want))
+				}
+			}
 			changed := false
 			for g, target := range []int{f.T1, f.T2, f.T3} {
 				gid := g + 1
@@ -267,7 +297,7 @@ func applyFaults(b []byte, plan []faultOne) []byte {
 				if op+8 > len(b) {
 					return nil
 				}
-				d0, d1 := int(binary.BigEndian.Uint32(b[op:])), int(binary.BigEndian.Uint32(b[op+4:]))
+				d0, d1 := int(binary.BigEndian.Uint32(m[op:])), int(binary.BigEndian.Uint32(m[op+4:]))
 				if d1-d0 < 10 || strike+d0+10 > len(m) {
 					return nil
 				}
@@ -614,6 +644,28 @@ func faultRun(args []string) error {
 	sw := newShardWriter(args[3], shards)
 	defer sw.close()
 	files := sampleCorpus(maxFiles, seed+3)
+	// format-aware plans are few and apply to few files: never sampled away
+	var always []string
+	for _, l := range lines {
+		if strings.Contains(l, `"sbixdupe"`) {
+			always = append(always, l)
+		}
+	}
+	if maxFiles > 0 {
+		have := map[string]bool{}
+		for _, cf := range files {
+			have[cf.ID] = true
+		}
+		for _, cf := range corpusFiles() {
+			n := len(cf.Data)
+			if n > 4096 {
+				n = 4096
+			}
+			if !have[cf.ID] && bytes.Contains(cf.Data[:n], []byte("sbix")) {
+				files = append(files, cf)
+			}
+		}
+	}
 	self, _ := os.Executable()
 	var mu sync.Mutex
 	total, crashes := 0, 0
@@ -626,8 +678,11 @@ func faultRun(args []string) error {
 			perm := rng.Perm(len(lines))[:per]
 			sub = make([]string, 0, per)
 			for _, i := range perm {
-				sub = append(sub, lines[i])
+				if !strings.Contains(lines[i], `"sbixdupe"`) {
+					sub = append(sub, lines[i])
+				}
 			}
+			sub = append(sub, always...)
 		}
 		pf := fmt.Sprintf("%s.plans.%d", args[3], fi)
 		os.WriteFile(pf, []byte(strings.Join(sub, "\n")+"\n"), 0o644)
